@@ -147,7 +147,10 @@ where
                         }
                         let buf = buf.try_into_io_slice_mut().unwrap().into_io_slice();
                         let slice = buf.slice(..bits::align_up(PAGE, info.addr.len as usize));
-                        let flusher = flushers[picked_count % flushers.len()].clone();
+                        // Route by hash like enqueue and delete do: a key's entries, tombstones and reinsertions must
+                        // pass through one flusher in submission order, or a reinsertion that overtakes a delete is
+                        // indexed after the tombstone is gone and the deleted entry comes back.
+                        let flusher = flushers[info.hash as usize % flushers.len()].clone();
                         flusher.submit(Submission::Reinsertion {
                             reinsertion: Reinsertion {
                                 hash: info.hash,
